@@ -197,7 +197,10 @@ pub fn run_batch(prop: Box<dyn Property>, tier: Tier) -> BatchResult {
         let slot_file = std::env::var("JAWK_SIM_SLOTS")
             .ok()
             .and_then(|p| std::fs::OpenOptions::new().write(true).open(p).ok());
-        handles.push(std::thread::spawn(move || {
+        // (the same stack as a main thread, so that a scenario behaves alike when the
+        // supervisor re-runs it alone)
+        let builder = std::thread::Builder::new().stack_size(8 << 20);
+        handles.push(builder.spawn(move || {
             let tmp = worker_tmp(&format!("w{wi}"));
             let mut local = Agg::default();
             loop {
@@ -318,7 +321,7 @@ pub fn run_batch(prop: Box<dyn Property>, tier: Tier) -> BatchResult {
                 e.0 += v.0;
                 e.1 = e.1.min(v.1);
             }
-        }));
+        }).expect("cannot spawn a worker thread"));
     }
     for h in handles {
         let _ = h.join();
